@@ -29,6 +29,11 @@ func Assume(c bool)                           { panic("intrinsic") }
 func Assert(c bool, label string)             { panic("intrinsic") }
 func Reach(label string)                      { panic("intrinsic") }
 func Sig(parts ...interface{})                { panic("intrinsic") }
+
+// PanicSite names the function in which the panic most recently caught by
+// Catch was raised (engine only; "" natively).
+func PanicSite() string { panic("intrinsic") }
+
 func Note(format string, args ...interface{}) { panic("intrinsic") }
 func Observe(parts ...interface{})            { panic("intrinsic") }
 
@@ -52,6 +57,16 @@ func OnSleep(f func(d time.Duration))                           { panic("intrins
 func SetStepBudget(n int)                                       { panic("intrinsic") }
 func AllocObligation(label string, base, perByte, inputLen int) { panic("intrinsic") }
 func AllowUnbuffered(ch interface{})                            { panic("intrinsic") }
+
+// Goroutines switches the engine to cooperative goroutines: every go statement
+// becomes a coroutine, scheduled run-to-block round-robin (one interleaving);
+// virtual time moves only when every coroutine is blocked.  Natively a no-op.
+func Goroutines() { panic("intrinsic") }
+
+// Quiesce lets the other goroutines run until all of them are blocked at the
+// current virtual time (natively: a short real sleep).
+func Quiesce() { panic("intrinsic") }
+
 func Spawned() int                                              { panic("intrinsic") }
 func RunSpawned(k int) (blocked bool)                           { panic("intrinsic") }
 func DropSpawned()                                              { panic("intrinsic") }
